@@ -17,6 +17,11 @@ CLAIMED = {
     text='Every panic obligation below <Source as FromStr>::from_str and <Position as FromStr>::from_str is discharged for an arbitrary &str; constant-argument calls (Url::parse literal, Regex::new literals, the airports table parsed behind Lazy) are re-validated on the current literal / data file; Source::serial reaches no clock/random/env effect (DefaultHasher has fixed keys), formats the table form from exactly (address, port), with the same template as the string form.',
     note='Trusted: rustc MIR, contracts in checker/models.py for url 2.x (special schemes have a known default port and a path starting with "/"), regex/url literal rules, serde derive (non-Option fields required, unknown fields ignored). "Well-formed specifications yield that endpoint" is not decided beyond the template/argument rules.',
     ref='DESIGN.md §7 C16'),
+ 'C17': dict(level='proof', engine='absint',
+    technique='abstract interpretation of MIR with a symbolic table length and zone facts (i < len); exhaustive input-class partition of update() compared with the documented key table',
+    text='Every panic obligation of update() and of Jet1090::{next, previous, home} is discharged for any table size including 0 under the selection invariant, the invariant is shown inductive on every return state (j = 0 when empty, j < len otherwise), and update() is executed abstractly once per input class (search mode x key code, characters split at the documented keys, Tick, Error): every field of the UI state is unchanged unless the documented (mode, key) pair says otherwise, and then takes the documented value.',
+    note='Trusted: rustc MIR; ghost model of ratatui TableState::{select, selected}; MutexGuard deref yields one guarded value; ScrollbarState::position total; spec/keys.json transcribes the documented bindings. Sequences of events follow by induction on the invariant; rows are rebuilt elsewhere (table.rs) and that code is not part of this property\'s anchors.',
+    ref='DESIGN.md §7 C17'),
  'C18': dict(level='proof', engine='absint',
     technique='abstract interpretation of MIR (intervals + symbolic terms), normal-form comparison',
     text='Every overflow/division Assert of the two conversion functions is discharged by interval analysis over the whole stated domain, and the symbolic result term is normalised and compared with the closed form the property states; sound for all inputs, not sampled.',
